@@ -91,10 +91,12 @@ def oracle(t, targets):
     return s
 
 
-def emit(modname, cfgid, kind, variants, targets, sp=None, pre='', order=None):
+def emit(modname, cfgid, kind, variants, targets, sp=None, pre='', order=None, xf=None):
     tl = [('Into', {'ty': tgt}) for tgt in (order or targets)]
     t = T(kind, 'Ty', variants, tl)
     t.extra_attrs = '#[derive(Clone, Copy)]\n'
+    if xf:
+        xf(t)
     body = pre + PRE + render_type(t, sp) + any_fn(t) + variant_index_fn(t) + oracle(t, targets)
     hs = []
     for tgt in targets:
